@@ -103,7 +103,8 @@ Fixpoint header_fields (lib : hlib) (kind : Z) (fs : list (list Z)) : outcome un
   | f :: t => _ <- header_field lib kind f ;; header_fields lib kind t
   end.
 
-(** headerLine / referenceLine / readGroupLine / programLine:
+(** headerLine (which on main collects the fields and stores them only when the whole line is accepted:
+    the slice bh.otherTags[:len:len] it starts from is always in range) / referenceLine / readGroupLine / programLine:
     fields := bytes.Split(l, tab); if len(fields) < min { err }; for _, f := range fields[1:] {...}; checks. *)
 Definition tagged_line (lib : hlib) (kind minf : Z) (l : list Z) : outcome unit :=
   let fields := split_on 9 l in
